@@ -22,3 +22,38 @@ Proof. vm_compute. reflexivity. Qed.
 (* the variants of two seeded changes, refuted by the same predicate *)
 Example dropped_refuted : how_ok "dropped" = false /\ how_ok "replaced:False" = false.
 Proof. split; vm_compute; reflexivity. Qed.
+
+(* ---- objects built inside the model classes (Gen/T8fwd.v: cross_stage_field_indices, inner_objects) *)
+
+(* every stage of field k of a cross-set model takes element k of every per-field parameter: 22 per-field values, none crossed *)
+Lemma cross_stages_take_their_own_field :
+  forallb (fun r => let '(_, _, fld, idx) := r in Nat.eqb fld (S idx)) cross_stage_field_indices = true /\
+  List.length cross_stage_field_indices = 22.
+Proof. split; vm_compute; reflexivity. Qed.
+Example crossed_index_refuted : (let '(_, _, fld, idx) := ("pca2", "n_modes", 2, 0) in Nat.eqb fld (S idx)) = false.
+Proof. reflexivity. Qed.
+
+Definition obj_kw (owner meth callee kw : string) : list string :=
+  map (fun r => let '(_, _, _, _, _, v) := r in v)
+      (filter (fun r => let '(o, m, _, c, k, _) := r in String.eqb o owner && String.eqb m meth && String.eqb c callee && String.eqb k kw) inner_objects).
+
+(* the decomposition steps that models run inside themselves are built lazily and without a NaN scan of their own: they receive the model's
+   `compute` and check_nans=False (the model's Preprocessor has dealt with missing values already) *)
+Lemma inner_steps_stay_lazy :
+  obj_kw "ExtendedEOF" "__init__" "EOF" "check_nans" = ["False"] /\ obj_kw "ExtendedEOF" "_fit_algorithm" "EOF" "check_nans" = ["False"] /\
+  obj_kw "OPA" "_fit_algorithm" "EOF" "check_nans" = ["False"] /\
+  obj_kw "ExtendedEOF" "__init__" "EOF" "compute" = ["self._params['compute']"] /\ obj_kw "ExtendedEOF" "_fit_algorithm" "EOF" "compute" = ["self._params['compute']"] /\
+  obj_kw "OPA" "_fit_algorithm" "EOF" "compute" = ["self._params['compute']"] /\ obj_kw "OPA" "_fit_algorithm" "Decomposer" "compute" = ["self._params['compute']"] /\
+  obj_kw "POP" "__init__" "PCA" "compute_eagerly" = ["compute"] /\ obj_kw "PCA" "fit" "SVD" "compute" = ["self.compute_eagerly"] /\
+  obj_kw "BaseModelCrossSet" "__init__" "Preprocessor" "compute" = ["compute"; "compute"] /\ obj_kw "BaseModelSingleSet" "__init__" "Preprocessor" "compute" = ["compute"].
+Proof. repeat split; vm_compute; reflexivity. Qed.
+
+(* every decomposition step built inside a model that takes a seed receives the model's seed *)
+Lemma inner_steps_are_seeded :
+  obj_kw "ExtendedEOF" "__init__" "EOF" "random_state" = ["self._params['random_state']"] /\
+  obj_kw "ExtendedEOF" "_fit_algorithm" "EOF" "random_state" = ["self._params['random_state']"] /\
+  obj_kw "OPA" "_fit_algorithm" "EOF" "random_state" = ["self._params['random_state']"] /\
+  obj_kw "POP" "__init__" "PCA" "random_state" = ["random_state"] /\
+  obj_kw "BaseModelCrossSet" "__init__" "PCA" "random_state" = ["random_state"; "random_state"] /\
+  obj_kw "PCA" "fit" "SVD" "random_state" = ["self.random_state"].
+Proof. repeat split; vm_compute; reflexivity. Qed.
